@@ -448,7 +448,19 @@ func (c *FnCtx) evalSpecBuiltin(x *ast.CallExpr, fobj *types.Func, st *State) st
 		c.specMode--
 		c.specEnv = c.specEnv[:len(c.specEnv)-1]
 		if name == "V_forall" {
-			return "(forall (" + strings.Join(binders, " ") + ") " + implies(and(ranges...), body) + ")"
+			inner := implies(and(ranges...), body)
+			if len(env) == 1 {
+				for _, bn := range env {
+					if pats := directPatterns(inner, bn); len(pats) > 0 {
+						var ps []string
+						for _, p := range pats {
+							ps = append(ps, ":pattern ("+p+")")
+						}
+						return "(forall (" + strings.Join(binders, " ") + ") (! " + inner + " " + strings.Join(ps, " ") + "))"
+					}
+				}
+			}
+			return "(forall (" + strings.Join(binders, " ") + ") " + inner + ")"
 		}
 		return "(exists (" + strings.Join(binders, " ") + ") " + and(append(ranges, body)...) + ")"
 	case "V_implies":
